@@ -69,7 +69,11 @@ def main():
                     print("%s %s: pattern occurs %d times - SKIPPED" % (prop, m["id"], src.count(m["old"])))
                     results.append({"prop": prop, "id": m["id"], "detected": None, "ok": False})
                     continue
-                open(path, "w").write(src.replace(m["old"], m["new"]))
+                mutated = src.replace(m["old"], m["new"])
+                for extra in m.get("also", ()):  # two cooperating sites in the same file
+                    assert mutated.count(extra["old"]) == 1, extra["old"]
+                    mutated = mutated.replace(extra["old"], extra["new"])
+                open(path, "w").write(mutated)
                 try:
                     rc, out = run_check(prop, repo, runs)
                     classes = sorted({ln.split("class=")[1].split()[0] for ln in out.splitlines() if ln.strip().startswith("class=")})
